@@ -4,14 +4,20 @@
    every InsertBlock / InsertConfirms the chain state the real node is in (head, stable block) and the pool content:
    GetTxs at `now`, the latest block time the node has seen, with a size larger than the universe.  The monitor
    ADOPTS the logged chain state (which block becomes head or stable is C03's business, it only has to be a
-   well-formed state of the logged tree) and JUDGES the pool: it must hold exactly the transactions the node was
-   ever given (seen) that are not expired at `now` and not on the head's chain - whether the head moved by extension,
-   by a fork switch, by a fork switch forced by a stable change (own fork cut), with or without the guard having
-   been pruned by time.  seen = the transactions submitted to the pool before the run (logged at reset) and those of
-   every block the node accepted since, on whatever fork. *)
+   well-formed state of the logged tree) and JUDGES the pool by the two bounds of the clause - whether the head moved
+   by extension, by a fork switch to the delivered block or to another stored leaf, by a fork switch forced by a
+   stable change (own fork cut), with or without the guard having been pruned by time:
+     UPPER  no duplicates; only transactions the node was ever given (seen: submitted to the pool before the run, logged
+            at reset, or carried by a block it accepted since, on whatever fork), not expired at `now`, and NONE that
+            are on the (new) head's chain;
+     LOWER  every transaction that was pending after the previous call (pend) or lies in a block of the OLD head's
+            branch back to the common ancestor with the new head (the abandoned fork) is pending, unless it is on the
+            new head's chain or expired at `now`.
+   A transaction known only from side blocks that were never on the head's branch and never pending may be pending or
+   not: the clause does not demand it. *)
 EXTENDS TraceBase
-VARIABLES parent, txs, time, exp, all, known, stable, head, now, seen
-pvars == <<parent, txs, time, exp, all, known, stable, head, now, seen, l>>
+VARIABLES parent, txs, time, exp, all, known, stable, head, now, seen, pend
+pvars == <<parent, txs, time, exp, all, known, stable, head, now, seen, pend, l>>
 G == 0
 RECURSIVE Anc(_)
 Anc(b) == IF b = G THEN {G} ELSE {b} \cup Anc(parent[b])
@@ -19,11 +25,14 @@ H(b) == Cardinality(Anc(b)) - 1
 OnChain(b) == UNION {ToSet(txs[x]) : x \in Anc(b) \ {G}}
 Live(n) == {t \in all : exp[t] >= n}                                      \* TxPool: expired iff Expiration < time
 Prune(kn, st) == {b \in kn : b \in Anc(st) \/ st \in Anc(b)}               \* SetStableBlock drops the other forks
-Judge(hd, nw, sn, pl) ==
+TxsOfBlocks(S) == UNION {ToSet(txs[x]) : x \in S \ {G}}
+\* oh: the head before the call, hd: after; sn: seen; pp: pending before the call; pl: the pool as handed out now
+Judge(oh, hd, nw, sn, pp, pl) ==
   /\ Len(pl) = Cardinality(ToSet(pl))                       \* no duplicates handed out
   /\ ToSet(pl) \subseteq sn \cap Live(nw)                   \* nothing expired, nothing the node was never given
   /\ ToSet(pl) \cap OnChain(hd) = {}                        \* none that are on the (new) current fork
-  /\ (sn \cap Live(nw)) \ OnChain(hd) \subseteq ToSet(pl)   \* the abandoned / side forks' transactions are pending, nothing pending was lost
+  /\ ((pp \cup TxsOfBlocks(Anc(oh) \ Anc(hd))) \cap Live(nw)) \ OnChain(hd) \subseteq ToSet(pl)
+                                                            \* the abandoned fork's transactions are pending, nothing pending was lost
 \* the logged chain state is a state of the logged tree: stable moved forward along known blocks, head on top of it
 Adopt(kn, st, hd) ==
   /\ st \in kn /\ stable \in Anc(st)
@@ -35,7 +44,7 @@ TReset == /\ Ev("reset")
           /\ E.now = 0
           /\ ToSet(E.pend) \subseteq ToSet(E.all)
           /\ ToSet(E.pool) = ToSet(E.pend) /\ Len(E.pool) = Len(E.pend)   \* what was submitted is pending and alive at genesis time
-          /\ seen' = ToSet(E.pend)
+          /\ seen' = ToSet(E.pend) /\ pend' = ToSet(E.pool)
           /\ \A t \in ToSet(E.all) : E.exp[t] >= 0
 TInsert == /\ Ev("InsertBlock")
            /\ LET b == E.a[1] IN
@@ -45,17 +54,19 @@ TInsert == /\ Ev("InsertBlock")
                          ELSE Adopt(known, E.stable, E.head) /\ E.now = now
               /\ now' = E.now
               /\ seen' = IF E.ok THEN seen \cup ToSet(txs[b]) ELSE seen
-              /\ Judge(E.head, E.now, seen', E.pool)
+              /\ Judge(head, E.head, E.now, seen', pend, E.pool)
+              /\ pend' = ToSet(E.pool)
            /\ UNCHANGED <<parent, txs, time, exp, all>>
 \* a confirm packet: accepted or not, the stable block may move and cut the current fork
 TConfirm == /\ Ev("InsertConfirms")
             /\ E.a[1] \in known
             /\ Adopt(known, E.stable, E.head)
             /\ E.now = now
-            /\ Judge(E.head, E.now, seen, E.pool)
+            /\ Judge(head, E.head, E.now, seen, pend, E.pool)
+            /\ pend' = ToSet(E.pool)
             /\ UNCHANGED <<parent, txs, time, exp, all, now, seen>>
 TraceNext == TReset \/ TInsert \/ TConfirm
 TraceSpec == /\ l = 1 /\ parent = <<>> /\ txs = <<>> /\ time = <<>> /\ exp = <<>> /\ all = {}
-             /\ known = {G} /\ stable = G /\ head = G /\ now = 0 /\ seen = {}
+             /\ known = {G} /\ stable = G /\ head = G /\ now = 0 /\ seen = {} /\ pend = {}
              /\ [][TraceNext]_pvars
 ====
